@@ -39,6 +39,8 @@ pub struct DaemonCfg {
     pub unix_role: Option<String>,
     pub testbed: bool,
     pub tcp: bool,
+    /// disk storage under the daemon's directory instead of memory storage
+    pub disk: bool,
 }
 
 pub struct Daemon {
@@ -144,7 +146,11 @@ impl Daemon {
         let port = if cfg.tcp { Some(free_port(nr).ok_or("no free port")?) } else { None };
         let mem = ((std::process::id() as u64) << 24) | (1 << 22) | nr;
         let mut t = String::new();
-        t.push_str(&format!("storage_uri = \"memory:{mem}\"\n"));
+        if cfg.disk {
+            t.push_str(&format!("storage_uri = \"{}/data/\"\n", dir.display()));
+        } else {
+            t.push_str(&format!("storage_uri = \"memory:{mem}\"\n"));
+        }
         t.push_str(&format!("repo_dir = \"{}/repo\"\ntls_keys_dir = \"{}/ssl\"\npid_file = \"{}/krill.pid\"\n", dir.display(), dir.display(), dir.display()));
         t.push_str("service_uri = \"https://krill.example.org/\"\nlog_type = \"stderr\"\n");
         t.push_str(&format!("log_level = \"{}\"\n", std::env::var("KVH_LOG").unwrap_or("off".into())));
